@@ -13,11 +13,11 @@ def run(ctx: common.Ctx):
         'getters/iteration/==/hash/deepcopy/print do not write the store: true of the model by construction, '
         'established for the implementation by the read-only sweep (monitor), not by a theorem']
     ctx.require_coq(['properties/C04'], extra_targets=['CommentsRun'])
-    c14.run_all(ctx, 'C04', 330, 4000)
+    c14.run_all(ctx, 'C04', 330, 1500)
 
 
 def search(ctx: common.Ctx):
-    c14.run_all(ctx, 'C04', 330, 4000)
+    c14.run_all(ctx, 'C04', 330, 1500)
 
 
 def replay(ctx, path):
